@@ -338,7 +338,8 @@ func (parser *Parser) ParseExpression(depth int) (res Sexp, err error) {
 			}
 			return exp, err
 		case TokenRCurly:
-			_, _ = lexer.GetNextToken()       // dicard '}'
+			// discard the comments skipped above and the '}' (tokens[extra-1])
+			lexer.tokens = lexer.tokens[extra:]
 			return MakeHash(nil, "hash", env) // return empty hash
 		case TokenString:
 			// peek ahead past the string to see if we have ':' TokenColonOperator
